@@ -59,13 +59,108 @@ def outcomeEq : Spec.Outcome Nat BGeom → Spec.Outcome Nat BGeom → Bool
   | .panic, .panic => true
   | _, _ => false
 
+/-! ### the memory model (`Mem.lean`) run on the same input, laid out as the harness lays it out -/
+
+open Mem in
+structure LState where
+  mem : Mem UInt64
+  seen : List (Slice × List (Pt UInt64))
+
+open Mem in
+/-- place one point slice: `x` re-slices an earlier slice of which it is a prefix, `w` appends to the one
+flat buffer `pts[0]`, otherwise a new array -/
+def layPts (fl : String) (ps : List (Pt UInt64)) (st : LState) : Slice × LState :=
+  let shared : Option Slice :=
+    if fl.contains 'x' && !ps.isEmpty then
+      (st.seen.find? fun (_, c) => c.take ps.length == ps).map fun (sl, _) => ⟨sl.addr, sl.off, ps.length⟩
+    else none
+  match shared with
+  | some sl => (sl, st)
+  | none =>
+    if fl.contains 'w' then
+      let buf := st.mem.pts.headD []
+      let sl : Slice := ⟨0, buf.length, ps.length⟩
+      (sl, { mem := { st.mem with pts := (buf ++ ps) :: st.mem.pts.drop 1 }, seen := st.seen ++ [(sl, ps)] })
+    else
+      let sl : Slice := ⟨st.mem.pts.length, 0, ps.length⟩
+      (sl, { mem := { st.mem with pts := st.mem.pts ++ [ps] }, seen := st.seen ++ [(sl, ps)] })
+
+open Mem in
+def layPaths (fl : String) (rs : List (List (Pt UInt64))) (st : LState) : Slice × LState :=
+  let (hs, st) := rs.foldl (fun (acc : List Slice × LState) r =>
+    let (h, st) := layPts fl r acc.2; (acc.1 ++ [h], st)) ([], st)
+  (⟨st.mem.paths.length, 0, hs.length⟩, { st with mem := { st.mem with paths := st.mem.paths ++ [hs] } })
+
+open Mem in
+mutual
+def layGeom (fl : String) : BGeom → LState → MGeom UInt64 × LState
+  | .point p, st => (.point p, st)
+  | .multiPoint ps, st => let (h, st) := layPts fl ps st; (.multiPoint h, st)
+  | .lineString ps, st => let (h, st) := layPts fl ps st; (.lineString h, st)
+  | .multiLineString ls, st => let (h, st) := layPaths fl ls st; (.multiLineString h, st)
+  | .polygon rs, st => let (h, st) := layPaths fl rs st; (.polygon h, st)
+  | .multiPolygon ps, st =>
+    let (hs, st) := ps.foldl (fun (acc : List Slice × LState) p =>
+      let (h, st) := layPaths fl p acc.2; (acc.1 ++ [h], st)) ([], st)
+    (.multiPolygon ⟨st.mem.polys.length, 0, hs.length⟩, { st with mem := { st.mem with polys := st.mem.polys ++ [hs] } })
+  | .collection gs, st =>
+    let (ms, st) := layGeoms fl gs st
+    (.collection ⟨st.mem.geoms.length, 0, ms.length⟩, { st with mem := { st.mem with geoms := st.mem.geoms ++ [ms] } })
+  | .bounds a b, st => (.bounds st.mem.bnds.length, { st with mem := { st.mem with bnds := st.mem.bnds ++ [(a, b)] } })
+  | .nil, st => (.nil, st)
+def layGeoms (fl : String) : List BGeom → LState → List (MGeom UInt64) × LState
+  | [], st => ([], st)
+  | g :: gs, st =>
+    let (m, st) := layGeom fl g st
+    let (ms, st) := layGeoms fl gs st
+    (m :: ms, st)
+end
+
+open Mem in
+def readArr {β : Type} (ar : List (List β)) (s : Slice) : Option (List β) :=
+  if s.len == 0 then some [] else
+  match ar[s.addr]? with
+  | some a => if s.off + s.len ≤ a.length then some ((a.drop s.off).take s.len) else none
+  | none => none
+
+open Mem in
+def decodeGeom (m : Mem UInt64) : Nat → MGeom UInt64 → Option BGeom
+  | 0, _ => none
+  | fuel+1, g =>
+    match g with
+    | .point p => some (.point p)
+    | .multiPoint s => (readArr m.pts s).map .multiPoint
+    | .lineString s => (readArr m.pts s).map .lineString
+    | .multiLineString s => do let hs ← readArr m.paths s; let ls ← hs.mapM (readArr m.pts); pure (.multiLineString ls)
+    | .polygon s => do let hs ← readArr m.paths s; let ls ← hs.mapM (readArr m.pts); pure (.polygon ls)
+    | .multiPolygon s => do
+      let ps ← readArr m.polys s
+      let r ← ps.mapM fun p => do let hs ← readArr m.paths p; hs.mapM (readArr m.pts)
+      pure (.multiPolygon r)
+    | .collection s => do let gs ← readArr m.geoms s; let r ← gs.mapM (decodeGeom m fuel); pure (.collection r)
+    | .bounds a => (m.bnds[a]?).map fun (x, y) => .bounds x y
+    | .nil => some .nil
+
+open Mem in
+/-- run `Mem.transformTop` on the laid-out input; the decoded outcome and whether the input still decodes
+to itself afterwards -/
+def memOutcome (fl : String) (t : Option (TF Nat UInt64)) (g : BGeom) : Spec.Outcome Nat BGeom × Bool :=
+  let st0 : LState := { mem := { pts := if fl.contains 'w' then [[]] else [], paths := [], polys := [], geoms := [], bnds := [] }, seen := [] }
+  let (mg, st) := layGeom fl g st0
+  let r := transformTop (E := Nat) ⟨0, 0⟩ 64 t mg st.mem
+  let inputKept := match decodeGeom r.1 64 mg with | some g' => Geom.beq g' g | none => false
+  match r.2 with
+  | .ok g' => (match decodeGeom r.1 64 g' with | some d => .ok d | none => .panic, inputKept)
+  | .error (.err e) => (.err e, inputKept)
+  | .error (.panic _) => (.panic, inputKept)
+
 structure GTV where
   cls : String
   spec : Option String
   diff : Option String
 
 /-- verdict on one `g.Transform(t)` answer `res` (and, when given, the log of the calls of `t`) -/
-def gtEval (kind : String) (g : BGeom) (res : Tok) (callLog : Option (List (Pt UInt64))) : Option GTV :=
+def gtEval (fl : String) (kind : String) (g : BGeom) (res : Tok) (callLog : Option (List (Pt UInt64))) : Option GTV :=
   match implOutcome res with
   | none => none
   | some out =>
@@ -79,6 +174,11 @@ def gtEval (kind : String) (g : BGeom) (res : Tok) (callLog : Option (List (Pt U
         let v := vs[k]?
         (some (tAt v k), !(match v with | some v => (vs.take k).contains v | none => false), "c")
     let m := transform t g
+    -- the memory model must agree with the functional model (and leave its input readable as before)
+    let (mo, kept) := memOutcome fl t g
+    let memBad : Option String :=
+      if !(outcomeEq mo (modelOutcome m)) then some "memory-model-differs-from-functional-model"
+      else if !kept then some "memory-model-changed-its-input" else none
     let expectFail := match t with
       | none => false
       | some t => match Spec.mapAll t vs with | .error _ => true | .ok _ => false
@@ -86,7 +186,7 @@ def gtEval (kind : String) (g : BGeom) (res : Tok) (callLog : Option (List (Pt U
     if !(noNil g) then
       -- nil members are outside the property; only the model is compared
       some { cls := s!"gt-nilmember-{ktag}", spec := none,
-             diff := if outcomeEq (modelOutcome m) out then none else some s!"model-differs impl={" ".intercalate (res.take 3)}" }
+             diff := if outcomeEq (modelOutcome m) out then memBad else some s!"model-differs impl={" ".intercalate (res.take 3)}" }
     else if !exact then
       -- duplicate of the failing vertex earlier in the traversal: check the counting semantics directly
       let k := (kind.drop 1).toString.toNat?.getD 0
@@ -107,24 +207,25 @@ def gtEval (kind : String) (g : BGeom) (res : Tok) (callLog : Option (List (Pt U
             some { cls := cls, diff := none,
                    spec := some s!"transformer-not-called-on-the-vertices-in-order got={l.length} want={wantCalls.length}" }
           else some { cls := cls, spec := none,
-                      diff := if outcomeEq (modelOutcome m) out then none else some s!"model-differs impl={" ".intercalate (res.take 3)}" }
+                      diff := if outcomeEq (modelOutcome m) out then memBad else some s!"model-differs impl={" ".intercalate (res.take 3)}" }
         | none => some { cls := cls, spec := none,
-                         diff := if outcomeEq (modelOutcome m) out then none else some s!"model-differs impl={" ".intercalate (res.take 3)}" }
+                         diff := if outcomeEq (modelOutcome m) out then memBad else some s!"model-differs impl={" ".intercalate (res.take 3)}" }
 
 /-- the harness's in-place mutation: bit 8 of every coordinate flipped -/
 def flipGeom (g : BGeom) : BGeom := Geom.map (fun u => u ^^^ 0x100) g
 
 def judgeGT (kindFlags : String) (gt rhs : Tok) : String :=
   let kind := ((kindFlags.splitOn "@").headD "")
+  let fl := ((kindFlags.splitOn "@").drop 1).headD ""
   let lay := if kindFlags.contains '@' then "-shared" else ""
   match Proto.pGeom 64 gt with
   | none => "DIFF gt-bad parse-error-input"
   | some (g, _) =>
     match sectionsOf rhs "|" with
     | [res, flags, calls, again] =>
-      match parsePairs (calls.drop 2), gtEval kind g res none with
+      match parsePairs (calls.drop 2), gtEval fl kind g res none with
       | some callLog, some _ =>
-        match gtEval kind g res (some callLog), gtEval kind (flipGeom g) again none with
+        match gtEval fl kind g res (some callLog), gtEval fl kind (flipGeom g) again none with
         | some v1, some v2 =>
           let cls := v1.cls ++ lay
           match v1.spec with
